@@ -19,6 +19,8 @@ type DB struct {
 	Fail map[string]error
 	// Rows answers queries: columns and rows for a query string.
 	Rows func(q string, args []driver.NamedValue) ([]string, [][]driver.Value, error)
+	// RowFail: fetching row k (0-based) of a result set fails with this error (the query itself is accepted).
+	RowFail map[int]error
 	// OnCall is invoked for every recorded call (optional).
 	OnCall func(name string)
 
@@ -104,7 +106,7 @@ func (c *conn) QueryContext(_ context.Context, q string, args []driver.NamedValu
 	if err != nil {
 		return nil, err
 	}
-	return &rows{cols: cols, data: data}, nil
+	return &rows{cols: cols, data: data, fail: c.d.RowFail}, nil
 }
 
 type tx struct{ d *DB }
@@ -129,12 +131,16 @@ func (s *stmt) Query(args []driver.Value) (driver.Rows, error) {
 type rows struct {
 	cols []string
 	data [][]driver.Value
+	fail map[int]error
 	i    int
 }
 
 func (r *rows) Columns() []string { return r.cols }
 func (r *rows) Close() error      { return nil }
 func (r *rows) Next(dest []driver.Value) error {
+	if e, ok := r.fail[r.i]; ok {
+		return e
+	}
 	if r.i >= len(r.data) {
 		return io.EOF
 	}
